@@ -200,6 +200,118 @@ func c11RunCaseWith(c Case, withGlobals bool) (out string, errClass string, spyC
 	return out, errClass, ee.spy, detail
 }
 
+// c11Replaced: an include renders the template the name stands for at that point -- also when that template was
+// registered again, by any of the registration calls, between two renders of the same including template.
+func c11Replaced(res *Result) {
+	forms := []struct{ name, main string }{
+		{"plain", "a[{% include 'part' %}]b"},
+		{"computed-name", "a[{% include 'pa' ~ 'rt' %}]b"},
+		{"with-only", "a[{% include 'part' with {'v': 1} only %}]b"},
+		{"with", "a[{% include 'part' with {'v': 2} %}]b"},
+		{"ignore-missing", "a[{% include 'part' ignore missing %}]b"},
+		{"loop", "a{% for i in [1, 2] %}[{% include 'part' %}]{% endfor %}b"},
+		{"block", "a{% block x %}[{% include 'part' %}]{% endblock %}b"},
+		{"through-include", "a{% include 'mid' %}b"},
+		{"computed-name-double-quotes", "a[{% include \"pa\" ~ \"rt\" %}]b"},
+		{"computed-name-three-parts", "{% set m = 'ar' %}a[{% include 'p' ~ m ~ 't' %}]b"},
+		{"computed-name-with", "a[{% include 'pa' ~ 'rt' with {'v': 2} %}]b"},
+		{"conditional-name", "a[{% include true ? 'part' : 'nothere' %}]b"},
+	}
+	type reg struct {
+		name string
+		do   func(e *twig.Engine, src string) error
+	}
+	regs := []reg{
+		{"RegisterString", func(e *twig.Engine, src string) error { return e.RegisterString("part", src) }},
+		{"RegisterTemplate", func(e *twig.Engine, src string) error {
+			t, err := e.ParseTemplate(src)
+			if err != nil {
+				return err
+			}
+			e.RegisterTemplate("part", t)
+			return nil
+		}},
+		{"LoadFromCompiledData", func(e *twig.Engine, src string) error {
+			o := twig.New()
+			if err := o.RegisterString("part", src); err != nil {
+				return err
+			}
+			ct, err := o.CompileTemplate("part")
+			if err != nil {
+				return err
+			}
+			data, err := twig.SerializeCompiledTemplate(ct)
+			if err != nil {
+				return err
+			}
+			return e.LoadFromCompiledData(data)
+		}},
+		{"RegisterCompiledTemplate", func(e *twig.Engine, src string) error {
+			o := twig.New()
+			if err := o.RegisterString("part", src); err != nil {
+				return err
+			}
+			ct, err := o.CompileTemplate("part")
+			if err != nil {
+				return err
+			}
+			return e.RegisterCompiledTemplate(ct)
+		}},
+	}
+	for _, f := range forms {
+		for _, rg := range regs {
+			eng := twig.New()
+			c := Case{"stream": "c11-replaced", "form": f.name, "main": f.main, "registration": rg.name}
+			res.Hist["stream:c11-replaced"]++
+			if err := eng.RegisterString("main", f.main); err != nil {
+				res.Hist["c11-replaced: form does not parse"]++
+				break
+			}
+			eng.RegisterString("mid", "[{% include 'part' %}]")
+			n := 1
+			if f.name == "loop" {
+				n = 2
+			}
+			for step, body := range []string{"ONE", "TWO{{ v }}", "THREE", "ONE"} {
+				var err error
+				if step == 0 {
+					err = eng.RegisterString("part", body)
+				} else {
+					err = rg.do(eng, body)
+				}
+				if err != nil {
+					res.Notes = append(res.Notes, "c11-replaced: "+rg.name+" fails: "+err.Error())
+					break
+				}
+				// what the name stands for now: a direct render of it with the context the include gives it
+				vctx := map[string]interface{}{}
+				if f.name == "with-only" {
+					vctx["v"] = 1
+				} else if f.name == "with" || f.name == "computed-name-with" {
+					vctx["v"] = 2
+				}
+				direct, derr := eng.Render("part", vctx)
+				if derr != nil {
+					break
+				}
+				want := "a" + strings.Repeat("["+direct+"]", n) + "b"
+				for again := 0; again < 2; again++ {
+					res.Evaluations++
+					got, err := eng.Render("main", map[string]interface{}{})
+					if err != nil {
+						got = "error: " + err.Error()
+					}
+					if got != want {
+						res.add(Finding{Kind: "oracle", Where: "c11-replaced " + f.name + " after " + rg.name, Case: c, Expected: want, Observed: got,
+							Detail: fmt.Sprintf("history: the included template registered %d times under one name, the including template rendered after each; registration %d", step+1, step+1)})
+						break
+					}
+				}
+			}
+		}
+	}
+}
+
 func c11Pred(c Case, key string) string {
 	e, _ := c[key].(map[string]interface{})
 	if v, ok := e["out"].(string); ok {
@@ -266,6 +378,7 @@ func c11Appears(res *Result) {
 
 func runC11(cases string, res *Result) {
 	c11Appears(res)
+	c11Replaced(res)
 	readCases(cases, func(c Case) {
 		stream := c.str("stream")
 		res.Hist["stream:"+stream]++
